@@ -27,7 +27,7 @@ VolumeValid(o) == o \in {"vol-digits", "vol-b", "vol-k", "vol-m", "vol-g"}      
 Meaningful(cmd, cond, opt) ==
   CASE cmd = "i" -> cond = "absent" /\ opt = "none"
     [] cmd = "c" -> cond \in {"absent", "exists"} /\ opt \in {"none", "no-suffix", "dotted-name", "vol-digits", "vol-b", "vol-k", "vol-m", "vol-g", "vol-bad-unit", "vol-empty"}
-    [] cmd = "a" -> cond \in {"intact", "absent"} /\ opt = "none"
+    [] cmd = "a" -> cond \in {"intact", "absent", "header-damaged"} /\ opt = "none"
     [] cmd = "l" -> cond \in Good \cup {"header-damaged", "data-damaged", "stored-damaged", "needs-password"} /\ opt \in {"none", "verbose"}
     [] cmd = "x" -> cond \in Good \cup {"header-damaged", "data-damaged", "stored-damaged", "needs-password", "unsupported-method"} /\ opt \in {"none", "verbose", "cwd"}
     [] cmd = "t" -> cond \in Good \cup {"header-damaged", "data-damaged", "stored-damaged", "needs-password", "unsupported-method"} /\ opt = "none"
